@@ -392,6 +392,14 @@ class Unit:
         def locate(anchor, nth):
             pat = [t.text for t in sig(lex(anchor))]
             hits = rw.find_seq(st, pat)
+            if nth == 0 and len(hits) != 1:
+                # the anchored statement was edited (or duplicated): the region boundary is the place the baseline source's
+                # anchor aligns with (token alignment); a region is only ever the real statements between two boundaries, so a
+                # boundary found this way changes which real statements are checked, never what they say
+                m = self._align_anchor(st, pat, spec)
+                if m is not None:
+                    log["R8 region anchor re-located by alignment with the baseline"] = log.get("R8 region anchor re-located by alignment with the baseline", 0) + 1
+                    return m
             if (nth == 0 and len(hits) != 1) or len(hits) < max(nth, 1):
                 raise UnitError("region anchor `%s` matches %d times in %s" % (anchor, len(hits), spec.name))
             h = hits[max(nth, 1) - 1]
@@ -444,6 +452,42 @@ class Unit:
         m = re.search(r"fn\s+([A-Za-z_0-9]+)", rg["sig"])
         spec.region["name"] = m.group(1) if m else "region"
         return "%s {\n%s\n%s\n}" % (rg["sig"], body, rg.get("epilogue", ""))
+
+    def _align_anchor(self, st, pat, spec):
+        """(first, last) token index in `st` of the place where the baseline's unique occurrence of `pat` aligns; both ends must map"""
+        btxt = self._load_baseline().get(self.item_key(spec))
+        if btxt is None:
+            return None
+        import difflib
+        bt = [t.text for t in sig(lex(btxt))]
+        bh = [i for i in range(len(bt) - len(pat) + 1) if bt[i:i + len(pat)] == pat]
+        if len(bh) != 1:
+            return None
+        ct = [t.text for t in st]
+        sm = difflib.SequenceMatcher(None, bt, ct, autojunk=False)
+        blocks = sm.get_matching_blocks()
+
+        def mp(i):
+            for a, b, n in blocks:
+                if a <= i < a + n:
+                    return b + (i - a)
+            return None
+        first = mp(bh[0])
+        last = mp(bh[0] + len(pat) - 1)
+        if first is None:
+            # the statement's first token was edited: fall back to the token after the last aligned token before it
+            k = bh[0] - 1
+            while k >= 0 and mp(k) is None:
+                k -= 1
+            first = mp(k) + 1 if k >= 0 else None
+        if last is None:
+            k = bh[0] + len(pat)
+            while k < len(bt) and mp(k) is None:
+                k += 1
+            last = mp(k) - 1 if k < len(bt) else None
+        if first is None or last is None or last < first:
+            return None
+        return first, last
 
     def _disambiguate(self, st, pat, hits, spec):
         btxt = self._load_baseline().get(self.item_key(spec))
